@@ -278,6 +278,16 @@ func c05Match(c *vrep.Ctx) {
 		docs = vDocPool(c.Pick(8, 40))
 	case "notices":
 		docs = vDocPool(c.Pick(4, 24))
+	case "longwords":
+		// short documents (the long word is what varies)
+		var small []vDoc
+		for _, d := range vCorpusFiles() {
+			if len(d.Bytes) >= 300 && len(d.Bytes) <= 1200 {
+				small = append(small, d)
+			}
+		}
+		sort.Slice(small, func(i, j int) bool { return small[i].Key < small[j].Key })
+		docs = small[:c.Pick(1, 6)]
 	}
 	sc := vScenarioFiles()
 	var scNames []string
@@ -285,7 +295,7 @@ func c05Match(c *vrep.Ctx) {
 		scNames = append(scNames, n)
 	}
 	sort.Strings(scNames)
-	c.R.Rule = fmt.Sprintf("Match level, mode %s: documents in OOV context x %d transform kinds (global: all eligible lines; perline: one line at a time on documents of <=30 lines; pairs: all ordered pairs of kinds; scenarios: the 41 scenario files; notices: a copyright notice with quotes / apostrophes / hyphens in its lead in front of the document); multiset of (type, name, variant, confidence, token span, mapped lines) must be equal; non-trivial = distinct (document, transform...) cases where the untransformed input has a non-Copyright match and the transform changed the bytes", mode, len(vTransforms))
+	c.R.Rule = fmt.Sprintf("Match level, mode %s: documents in OOV context x %d transform kinds (global: all eligible lines; perline: one line at a time on documents of <=30 lines; pairs: all ordered pairs of kinds; scenarios: the 41 scenario files; notices: a copyright notice with quotes / apostrophes / hyphens in its lead in front of the document; longwords: one word of every length 60..300 bytes made of quoted / hyphenated pieces before or inside the document); multiset of (type, name, variant, confidence, token span, mapped lines) must be equal; non-trivial = distinct (document, transform...) cases where the untransformed input has a non-Copyright match and the transform changed the bytes", mode, len(vTransforms))
 	c.Bound("documents", len(docs))
 	c.Bound("mode", mode)
 	body := func(r *vx.Run) {
@@ -298,6 +308,23 @@ func c05Match(c *vrep.Ctx) {
 			d := docs[r.Choose(len(docs), "doc")]
 			base = vOOVBlock(2, 5, 0) + string(d.Bytes) + "\n" + vOOVBlock(1, 4, 30)
 			id = d.Key
+			if mode == "longwords" {
+				// ONE white-space free word of every length 60..300 bytes full of quotes, apostrophes and
+				// hyphens (a minified manifest, an attribute list) on the line before the document or in
+				// the middle of it: what the transforms put in its place is longer in bytes
+				L := 60 + r.Choose(241, "word length")
+				where := r.Choose(2, "before / inside")
+				unit := []string{`"ab":"cd",`, `a-"b"-c'd'`, `x='y-z';`}[r.Choose(c.Pick(2, 3), "pattern")]
+				w := strings.Repeat(unit, L/len(unit)+1)[:L-1] + "e"
+				if where == 0 {
+					base = vOOVBlock(2, 5, 0) + w + "\n" + string(d.Bytes) + "\n" + vOOVBlock(1, 4, 30)
+				} else {
+					f := strings.Fields(string(d.Bytes))
+					k := len(f) / 3
+					base = vOOVBlock(2, 5, 0) + strings.Join(f[:k], " ") + " " + w + " " + strings.Join(f[k:], " ") + "\n" + vOOVBlock(1, 4, 30)
+				}
+				id = fmt.Sprintf("%s|%d-byte word of %q %s", d.Key, L, unit, []string{"before", "inside"}[where])
+			}
 			if mode == "notices" {
 				// a copyright notice whose short lead contains what the transforms replace (quotes,
 				// apostrophes, hyphens) in front of the document
